@@ -160,16 +160,7 @@ func runC13(c *Ctx) {
 				return
 			}
 			look, fill := map[string]bool{}, map[string]bool{}
-			for _, r := range *mm.Referrers() {
-				switch y := r.(type) {
-				case *ssa.Lookup:
-					look[c.Path(y.Index, nil)] = true
-				case *ssa.MapUpdate:
-					if _, isK := y.Key.(*ssa.Const); !isK {
-						fill[c.Path(y.Key, nil)] = true
-					}
-				}
-			}
+			c.setOps(mm, nil, 0, look, fill)
 			if len(look) == 0 || len(fill) == 0 {
 				return
 			}
@@ -203,13 +194,12 @@ func runC13(c *Ctx) {
 		_ = needNonEmpty // an empty id is rejected by the pattern's '+' (K1 pins the literal); no separate obligation
 	}
 	noDup := func(key string, entry *ssa.Function, idPath pathPred) {
-		c.forAllDeep("C13.G1", key+":duplicate-id-rejected", entry, nil, &GCheck{Name: "id not seen before", BoolFalse: true, MatchOK: func(c *Ctx, v ssa.Value, env Env) bool {
+		c.forAllDeep("C13.G1", key+":duplicate-id-rejected", entry, nil, &GCheck{Name: key + ": id not seen before", BoolFalse: true, MatchOK: func(c *Ctx, v ssa.Value, env Env) bool {
 			lk, ok := v.(*ssa.Lookup)
 			if !ok {
 				return false
 			}
-			_, isMM := lk.X.(*ssa.MakeMap)
-			return isMM && idPath(c.Path(lk.Index, env))
+			return isLocalSet(c, lk.X, env) && idPath(c.Path(lk.Index, env))
 		}})
 	}
 
@@ -241,8 +231,7 @@ func runC13(c *Ctx) {
 		if !ok {
 			return false
 		}
-		_, isMM := lk.X.(*ssa.MakeMap)
-		return isMM && strings.Contains(c.Path(lk.Index, env), "net/url.Parse("+uri+")")
+		return isLocalSet(c, lk.X, env) && strings.Contains(c.Path(lk.Index, env), "net/url.Parse("+uri+")")
 	}})
 
 	// ---------------- replace
@@ -308,6 +297,51 @@ func runC13(c *Ctx) {
 	c.Assume("net/url.ParseRequestURI / url.Parse decide URI validity; the 'if' direction (every conforming patch is accepted) is not decided")
 }
 
+// setOps collects the key expressions a local map is searched with and filled with: directly, under a named type,
+// and in the module helpers the map is handed to (their values rendered in the caller's frame).
+func (c *Ctx) setOps(v ssa.Value, env Env, depth int, look, fill map[string]bool) {
+	if v.Referrers() == nil || depth > 2 {
+		return
+	}
+	for _, r := range *v.Referrers() {
+		switch y := r.(type) {
+		case *ssa.Lookup:
+			if y.X == v {
+				look[c.Path(y.Index, env)] = true
+			}
+		case *ssa.MapUpdate:
+			if y.Map != v {
+				continue
+			}
+			if _, isK := y.Key.(*ssa.Const); !isK {
+				fill[c.Path(y.Key, env)] = true
+			}
+		case *ssa.ChangeType:
+			c.setOps(y, env, depth, look, fill)
+		case *ssa.Call:
+			g := y.Call.StaticCallee()
+			if g == nil || !inModule(g) || g.Blocks == nil {
+				continue
+			}
+			genv := c.calleeEnv(&y.Call, g, env)
+			for i, a := range y.Call.Args {
+				if a == v && i < len(g.Params) {
+					c.setOps(g.Params[i], genv, depth+1, look, fill)
+				}
+			}
+		}
+	}
+}
+
+// isLocalSet: v is a map made in the function under analysis (directly, or handed to the helper whose frame env
+// renders), under any named type.
+func isLocalSet(c *Ctx, v ssa.Value, env Env) bool {
+	if _, isMM := stripConv(v).(*ssa.MakeMap); isMM {
+		return true
+	}
+	return strings.HasPrefix(c.Path(v, env), "makemap<")
+}
+
 // keyRules: per-key obligations for a list of keys whose element path satisfies K.
 func (c *Ctx) keyRules(key string, entry *ssa.Function, K pathPred, idRules func(string, *ssa.Function, pathPred, bool), noDup func(string, *ssa.Function, pathPred), jwkValidate *ssa.Function, purposes map[string]string) {
 	k := key + ":key"
@@ -349,36 +383,58 @@ func (c *Ctx) keyRules(key string, entry *ssa.Function, K pathPred, idRules func
 			return ok && K(cc.Path(lk.X, env)) && cc.Path(lk.Index, env) == `"purposes"`
 		}},
 		cmpReject("len(purposes) == 0 rejected", token.EQL, lenP(kPurp), pathIs("0"))))
+	// a helper works on the key, or on what the caller read from it (the purposes list); its values are rendered in
+	// the caller's frame so that both spellings give the same paths
+	onKeyData := func(call *ssa.Call, cc *Ctx, env Env) (*ssa.Function, Env, bool) {
+		g := call.Call.StaticCallee()
+		if g == nil || !inModule(g) || g.Blocks == nil {
+			return nil, nil, false
+		}
+		hit := false
+		for _, a := range call.Call.Args {
+			if p := cc.Path(a, env); K(p) || kPurp(p) {
+				hit = true
+			}
+		}
+		if !hit {
+			return nil, nil, false
+		}
+		return g, cc.calleeEnv(&call.Call, g, env), true
+	}
+	purpElem := func(s string) bool {
+		i := strings.LastIndex(s, "[")
+		return i > 0 && strings.HasSuffix(s, "]") && kPurp(s[:i])
+	}
 	c.forAllDeep("C13.G1", k+":purposes-known", entry, nil, &GCheck{Name: "every purpose ∈ allowedPurposes", MatchCall: func(cc *Ctx, call *ssa.Call, env Env) bool {
-		g, ok := onKey(call, cc, env)
+		g, genv, ok := onKeyData(call, cc, env)
 		if !ok {
 			return false
 		}
-		okL, _, n := cc.GuardLoop(g, nil, &GCheck{Name: "purpose ∈ allowedPurposes", NoDescend: true, MatchOK: func(cc *Ctx, v ssa.Value, env Env) bool {
+		okL, _, n := cc.GuardLoop(g, genv, &GCheck{Name: "purpose ∈ allowedPurposes", NoDescend: true, MatchOK: func(cc *Ctx, v ssa.Value, env Env) bool {
 			lk, isL := v.(*ssa.Lookup)
-			return isL && cc.Path(lk.X, env) == "global:"+pPV+".allowedPurposes" && strings.HasPrefix(cc.Path(lk.Index, env), "(document.PublicKey).Purpose($0)[")
+			return isL && cc.Path(lk.X, env) == "global:"+pPV+".allowedPurposes" && purpElem(cc.Path(lk.Index, env))
 		}})
 		return okL && n > 0
 	}})
 	c.forAllDeep("C13.G1", k+":type-admitted-for-purposes", entry, nil, &GCheck{Name: "key type admitted for every purpose (and in the general table when there is none)", MatchCall: func(cc *Ctx, call *ssa.Call, env Env) bool {
-		g, ok := onKey(call, cc, env)
+		g, genv, ok := onKeyData(call, cc, env)
 		if !ok || !isBoolType(call.Type()) {
 			return false
 		}
-		ok1, _, n1 := cc.GuardLoop(g, nil, &GCheck{Name: "allowedKeyTypes[purpose] ok", NoDescend: true, MatchOK: func(cc *Ctx, v ssa.Value, env Env) bool {
+		ok1, _, n1 := cc.GuardLoop(g, genv, &GCheck{Name: "allowedKeyTypes[purpose] ok", NoDescend: true, MatchOK: func(cc *Ctx, v ssa.Value, env Env) bool {
 			lk, isL := v.(*ssa.Lookup)
-			return isL && cc.Path(lk.X, env) == "global:"+pPV+".allowedKeyTypes" && strings.HasPrefix(cc.Path(lk.Index, env), "(document.PublicKey).Purpose($0)[")
+			return isL && cc.Path(lk.X, env) == "global:"+pPV+".allowedKeyTypes" && purpElem(cc.Path(lk.Index, env))
 		}})
-		ok2, _, n2 := cc.GuardLoop(g, nil, &GCheck{Name: "admitted[type] ok", NoDescend: true, MatchOK: func(cc *Ctx, v ssa.Value, env Env) bool {
+		ok2, _, n2 := cc.GuardLoop(g, genv, &GCheck{Name: "admitted[type] ok", NoDescend: true, MatchOK: func(cc *Ctx, v ssa.Value, env Env) bool {
 			lk, isL := v.(*ssa.Lookup)
-			return isL && strings.HasPrefix(cc.Path(lk.X, env), "global:"+pPV+".allowedKeyTypes[") && cc.Path(lk.Index, env) == "(document.PublicKey).Type($0)"
+			return isL && strings.HasPrefix(cc.Path(lk.X, env), "global:"+pPV+".allowedKeyTypes[") && kType(cc.Path(lk.Index, env))
 		}})
-		ok3, _, _ := cc.Guard(g, nil, anyOf("type ∈ general table, or the key has purposes",
+		ok3, _, _ := cc.Guard(g, genv, anyOf("type ∈ general table, or the key has purposes",
 			&GCheck{Name: "general[type] ok", NoDescend: true, MatchOK: func(cc *Ctx, v ssa.Value, env Env) bool {
 				lk, isL := v.(*ssa.Lookup)
-				return isL && cc.Path(lk.X, env) == "global:"+pPV+".allowedKeyTypesGeneral" && cc.Path(lk.Index, env) == "(document.PublicKey).Type($0)"
+				return isL && cc.Path(lk.X, env) == "global:"+pPV+".allowedKeyTypesGeneral" && kType(cc.Path(lk.Index, env))
 			}},
-			cmpReject("len(purposes) == 0", token.EQL, pathIs("len((document.PublicKey).Purpose($0))"), pathIs("0"))), nil)
+			cmpReject("len(purposes) == 0", token.EQL, lenP(kPurp), pathIs("0"))), nil)
 		return ok1 && ok2 && ok3 && n1 > 0 && n2 > 0
 	}})
 	// JWK rule
